@@ -1,0 +1,56 @@
+//go:build verif
+
+// Contracts for package k8s. This file is compiled only with -tags verif and
+// contains nothing but //@ specification comments; it adds no code.
+// It is read by /verif/engine (govc).
+
+package k8s
+
+//@ import v1 "k8s.io/api/core/v1"
+
+// ---------------------------------------------------------------- spec vocabulary
+
+// keyAt(n, key, i): the i-th taint of n has this key, and no earlier taint has.
+//@ spec keyAt(n *v1.Node, key string, i int) bool = 0 <= i && i < len(n.Spec.Taints) && n.Spec.Taints[i].Key == key && (forall j :: 0 <= j && j < i ==> n.Spec.Taints[j].Key != key)
+//@ spec hasKey(n *v1.Node, key string) bool = exists i :: 0 <= i && i < len(n.Spec.Taints) && n.Spec.Taints[i].Key == key
+//@ spec hasEsc(n *v1.Node) bool = hasKey(n, ToBeRemovedByAutoscalerKey)
+//@ spec hasForce(n *v1.Node) bool = hasKey(n, ToBeForceRemovedByAutoscalerKey)
+
+// ---------------------------------------------------------------- taint.go
+
+//@ func GetToBeRemovedTaint(node) (t, ok)
+//@   requires node != nil
+//@   ensures ok <==> hasEsc(node)
+//@   ensures ok ==> (exists i :: keyAt(node, ToBeRemovedByAutoscalerKey, i) && t.Value == node.Spec.Taints[i].Value && t.Key == ToBeRemovedByAutoscalerKey)
+//@ loop #0
+//@   invariant forall j :: 0 <= j && j < #i ==> node.Spec.Taints[j].Key != ToBeRemovedByAutoscalerKey
+
+//@ func GetToBeForceRemovedTaint(node) (t, ok)
+//@   requires node != nil
+//@   ensures ok <==> hasForce(node)
+//@ loop #0
+//@   invariant forall j :: 0 <= j && j < #i ==> node.Spec.Taints[j].Key != ToBeForceRemovedByAutoscalerKey
+
+//@ spec parseIntOK(s string) bool
+//@ spec parseIntVal(s string) int
+//@ const MaxInt64 = 9223372036854775807
+//@ const MinInt64 = 0 - 9223372036854775808
+//@ const MaxUnixSec = 9223372036854775807 - 62135596800
+
+//@ assume func strconv.ParseInt(s, base, bits) (v, err)
+//@   pure
+//@   ensures parseIntOK(s) ==> err == nil && v == parseIntVal(s)
+//@   ensures !parseIntOK(s) ==> err != nil
+//@   ensures MinInt64 <= parseIntVal(s) && parseIntVal(s) <= MaxInt64
+
+// time.Unix(sec, 0) is the instant sec only while sec + 62135596800 (the
+// package's internal epoch shift) does not overflow int64.
+//@ assume func time.Unix(sec, nsec) (t)
+//@   pure
+//@   requires [C01] sec <= MaxUnixSec
+//@   ensures t == sec * 1000000000 + nsec
+
+//@ func GetToBeRemovedTime(node) (res, err)
+//@   requires node != nil
+//@   ensures !hasEsc(node) ==> res == nil && err == nil
+//@   ensures [C01] hasEsc(node) ==> (exists i :: keyAt(node, ToBeRemovedByAutoscalerKey, i) && (parseIntOK(node.Spec.Taints[i].Value) ==> err == nil && res != nil && deref(res) == parseIntVal(node.Spec.Taints[i].Value) * 1000000000) && (!parseIntOK(node.Spec.Taints[i].Value) ==> err != nil && res == nil))
